@@ -151,6 +151,12 @@ func init() {
 		for _, tr := range []uint8{63} {
 			BFS(c, &PartialFamily{Nmax: nf, TR: tr, UndoBud: 1, FRBud: 1, FullFR: true, SetLimit: 2, NoIngest: true, Prop: "C02"}, 0)
 		}
+		// forests that went through one serialize/restore and then evolved further
+		nrt := pick(c, 5, 6)
+		c.Cov.Bound["restored_forests"] = fmt.Sprintf("Nmax=%d, one serialize/restore transition; Pollard, MapPollard full / partial", nrt)
+		if !c.Expired() {
+			BFS(c, &HistFamily{Nmax: nrt, Insts: stdInsts([]uint8{0, 63}, []string{"even"})[1:], Or: HistOracle{Proofs: true, Prop: "C02", OnlyAfter: "roundtrip"}, RTBud: 1, PermLimit: 2}, 0)
+		}
 		queriedFamily(c, HistOracle{Proofs: true, ProofSets: "small", Prop: "C02"})
 		tallFamily(c, "C02")
 	}
